@@ -17,6 +17,11 @@ RULE = (
     "plus calls to a recording function (positional / keyword mixes, nested calls, string literals in both quote "
     "styles, True/False/None), {e} versus I(e), whitespace variants and literal-type distinctions.  A case is one "
     "token sequence with all its bracketings; non-trivial: at least two operators or a call argument list"
+    '  Added: every operator with its operands swapped (bare, inside a larger argument, as keyword value) as '
+    'distinct terms, also end to end; integer literals above 2^53; whitespace inside string literals; text '
+    'columns that read like numbers / literals; later frames (two designs spelling one call on one frame '
+    'object, the frame edited in place, assign() / copy() derivatives, a row subset); dotted callees rebound '
+    'between designs. '
 )
 ASSUMPTIONS = [
     "oracle is Python's own eval over the same names; scalar-only expressions are excluded (the library rejects them)",
